@@ -1,8 +1,8 @@
 #!/usr/bin/env python3
 """Imports sub-agent deliverables /tmp/seed-Cxx-out/{a,b}.* into /verif/seeded/Cxx{a,b}/ (patch.diff, demo_test.go, notes.md, meta.json)."""
 import os, re, json, shutil, sys, glob
-ROUND = 11 if '--round11' in sys.argv else 10 if '--round10' in sys.argv else 9 if '--round9' in sys.argv else 8 if '--round8' in sys.argv else 7 if '--round7' in sys.argv else 6 if '--round6' in sys.argv else 5 if '--round5' in sys.argv else 4 if '--round4' in sys.argv else 3 if '--round3' in sys.argv else 2 if '--round2' in sys.argv else 1
-for out in sorted(glob.glob({1: '/tmp/seed-C*-out', 2: '/tmp/seed2-C*-out', 3: '/tmp/seed3-C*-out', 4: '/tmp/seed4-C*-out', 5: '/tmp/seed5-C*-out', 6: '/tmp/seed6-C*-out', 7: '/tmp/seed7-C*-out', 8: '/tmp/seed8-C*-out', 9: '/tmp/seed9-C*-out', 10: '/tmp/seedA-C*-out', 11: '/tmp/seedB-C*-out'}[ROUND])):
+ROUND = 12 if '--round12' in sys.argv else 11 if '--round11' in sys.argv else 10 if '--round10' in sys.argv else 9 if '--round9' in sys.argv else 8 if '--round8' in sys.argv else 7 if '--round7' in sys.argv else 6 if '--round6' in sys.argv else 5 if '--round5' in sys.argv else 4 if '--round4' in sys.argv else 3 if '--round3' in sys.argv else 2 if '--round2' in sys.argv else 1
+for out in sorted(glob.glob({1: '/tmp/seed-C*-out', 2: '/tmp/seed2-C*-out', 3: '/tmp/seed3-C*-out', 4: '/tmp/seed4-C*-out', 5: '/tmp/seed5-C*-out', 6: '/tmp/seed6-C*-out', 7: '/tmp/seed7-C*-out', 8: '/tmp/seed8-C*-out', 9: '/tmp/seed9-C*-out', 10: '/tmp/seedA-C*-out', 11: '/tmp/seedB-C*-out', 12: '/tmp/seedC-C*-out'}[ROUND])):
     pid = re.search(r'-(C\d+)-out', out).group(1)
     for v in 'ab':
         patch, demo, md = (f'{out}/{v}.patch.diff', f'{out}/{v}_demo_test.go', f'{out}/{v}.md')
